@@ -8,7 +8,7 @@ from hypothesis import strategies as st
 from hgv import gen
 from hgv import tsmodel as tm
 from hgv.runner import Result, Viol, canon
-from hgv.worker import HarnessError, Worker
+from hgv.worker import HarnessError, Rejected, Worker
 
 ID = "C07"
 MAX_SHARDS = 8
@@ -86,7 +86,7 @@ def check(case, ctx) -> Result:
                 res.violations.append(Viol("engine_crash", f"fresh-process run died: {r.get('signal')} {r.get('stderr', '')[-300:]}"))
                 return res
             if not r.get("built"):
-                raise HarnessError(f"C07 generator produced a program the tree rejects: {r.get('error')}")
+                raise Rejected(f"C07 generator produced a program the tree rejects: {r.get('error')}")
             ref.append((norm_trace(r["trace"]), canon(r.get("recorded")), canon(r.get("error"))))
     finally:
         fresh.close()
